@@ -276,7 +276,7 @@ impl<'a> GeneralCheck<'a> {
         }
         self.check_recursive(cst, sema, rule, diags);
         if let Some(regex) = rule.regex(cst) {
-            let mut open = FxHashSet::default();
+            let mut open = Vec::new();
             let mut created = FxHashMap::default();
             let mut used = FxHashSet::default();
             let left_rec = sema.recursive.get(&rule).is_some_and(|rec| {
@@ -640,101 +640,96 @@ impl<'a> GeneralCheck<'a> {
                 .insert(rule, RecursiveBranches::new(branches));
         }
     }
+    /// Checks a regex that may be skipped or that is one of several branches.
+    /// Markers defined inside are not visible afterwards, but markers that
+    /// were invalidated by a node creation inside stay invalid.
+    fn check_node_creation_branch(
+        cst: &'a Cst<'_>,
+        regex: Regex,
+        diags: &mut Vec<Diagnostic>,
+        open: &mut Vec<&'a str>,
+        created: &mut FxHashMap<&'a str, Span>,
+        used: &mut FxHashSet<&'a str>,
+        left_rec: bool,
+    ) {
+        let mut branch_open = open.clone();
+        Self::check_node_creation(cst, regex, diags, &mut branch_open, created, used, left_rec);
+        open.retain(|num| branch_open.contains(num));
+    }
+    /// Checks the body of a repetition. A node creation in one iteration also
+    /// invalidates markers for the following iterations, so the invalidated
+    /// markers are determined first.
+    fn check_node_creation_loop(
+        cst: &'a Cst<'_>,
+        regex: Regex,
+        diags: &mut Vec<Diagnostic>,
+        open: &mut Vec<&'a str>,
+        created: &mut FxHashMap<&'a str, Span>,
+        used: &mut FxHashSet<&'a str>,
+        left_rec: bool,
+    ) {
+        Self::check_node_creation_branch(
+            cst,
+            regex,
+            &mut vec![],
+            open,
+            &mut created.clone(),
+            &mut used.clone(),
+            left_rec,
+        );
+        Self::check_node_creation_branch(cst, regex, diags, open, created, used, left_rec);
+    }
     fn check_node_creation(
         cst: &'a Cst<'_>,
         regex: Regex,
         diags: &mut Vec<Diagnostic>,
-        open: &mut FxHashSet<&'a str>,
+        open: &mut Vec<&'a str>,
         created: &mut FxHashMap<&'a str, Span>,
         used: &mut FxHashSet<&'a str>,
         left_rec: bool,
     ) {
         match regex {
             Regex::OrderedChoice(regex) => regex.operands(cst).for_each(|op| {
-                Self::check_node_creation(
-                    cst,
-                    op,
-                    diags,
-                    &mut open.clone(),
-                    created,
-                    used,
-                    left_rec,
-                )
+                Self::check_node_creation_branch(cst, op, diags, open, created, used, left_rec)
             }),
             Regex::Alternation(regex) => regex.operands(cst).for_each(|op| {
-                Self::check_node_creation(
-                    cst,
-                    op,
-                    diags,
-                    &mut open.clone(),
-                    created,
-                    used,
-                    left_rec,
-                )
+                Self::check_node_creation_branch(cst, op, diags, open, created, used, left_rec)
             }),
             Regex::Concat(regex) => {
                 let old_open = open.clone();
                 for op in regex.operands(cst) {
                     Self::check_node_creation(cst, op, diags, open, created, used, left_rec);
                 }
-                *open = old_open;
+                // markers defined in the concatenation go out of scope,
+                // markers invalidated by a node creation stay invalid
+                open.retain(|num| old_open.contains(num));
             }
             Regex::Paren(regex) => {
                 if let Some(op) = regex.inner(cst) {
-                    Self::check_node_creation(
-                        cst,
-                        op,
-                        diags,
-                        &mut open.clone(),
-                        created,
-                        used,
-                        left_rec,
-                    )
+                    Self::check_node_creation_branch(cst, op, diags, open, created, used, left_rec)
                 }
             }
             Regex::Optional(regex) => {
                 if let Some(op) = regex.operand(cst) {
-                    Self::check_node_creation(
-                        cst,
-                        op,
-                        diags,
-                        &mut open.clone(),
-                        created,
-                        used,
-                        left_rec,
-                    )
+                    Self::check_node_creation_branch(cst, op, diags, open, created, used, left_rec)
                 }
             }
             Regex::Star(regex) => {
                 if let Some(op) = regex.operand(cst) {
-                    Self::check_node_creation(
-                        cst,
-                        op,
-                        diags,
-                        &mut open.clone(),
-                        created,
-                        used,
-                        left_rec,
-                    )
+                    Self::check_node_creation_loop(cst, op, diags, open, created, used, left_rec)
                 }
             }
             Regex::Plus(regex) => {
                 if let Some(op) = regex.operand(cst) {
-                    Self::check_node_creation(
-                        cst,
-                        op,
-                        diags,
-                        &mut open.clone(),
-                        created,
-                        used,
-                        left_rec,
-                    )
+                    Self::check_node_creation_loop(cst, op, diags, open, created, used, left_rec)
                 }
             }
             Regex::NodeMarker(regex) => {
                 let num = regex.number(cst);
                 let span = regex.span(cst);
-                open.insert(num);
+                if !open.contains(&num) {
+                    open.push(num);
+                }
                 if let Some(old_span) = created.insert(regex.number(cst), span.clone()) {
                     diags.push(Diagnostic::redefine_node_marker(&span, &old_span));
                 }
@@ -743,12 +738,14 @@ impl<'a> GeneralCheck<'a> {
                 let span = regex.span(cst);
                 if let Some(num) = regex.number(cst) {
                     used.insert(num);
-                    if !open.contains(num) {
-                        if let Some(open_span) = created.get(num) {
-                            diags.push(Diagnostic::invalid_create_node(&span, open_span));
-                        } else {
-                            diags.push(Diagnostic::undefined_create_node(&span));
-                        }
+                    if let Some(pos) = open.iter().position(|open_num| *open_num == num) {
+                        // the inserted node shifts every node behind the marker, so
+                        // markers that were visited after it must not be used anymore
+                        open.truncate(pos + 1);
+                    } else if let Some(open_span) = created.get(num) {
+                        diags.push(Diagnostic::invalid_create_node(&span, open_span));
+                    } else {
+                        diags.push(Diagnostic::undefined_create_node(&span));
                     }
                 } else if left_rec {
                     diags.push(Diagnostic::create_rule_node_left_rec(&span));
